@@ -309,6 +309,9 @@ func runC15(r *Run) {
 		filterCase("filter[two groups, the second a single gate]", []uint64{0, 0, 1}, [][2]uint64{{0, 2}, {2, 3}}, []int{1, 2, 2}, 3),
 		filterCase("filter[three single-gate groups]", []uint64{0, 1, 2}, [][2]uint64{{0, 1}, {1, 2}, {2, 3}}, []int{2, 1, 1}, 3),
 		filterCase("filter[one group, one gate]", []uint64{0}, [][2]uint64{{0, 1}}, []int{2}, 2),
+		// the number of selector polynomials is the number of groups in the description (plonky2 strips
+		// groups.len() constants), also when the last group has no gate
+		filterCase("filter[two groups and a third without gates]", []uint64{0, 0, 1}, [][2]uint64{{0, 2}, {2, 3}, {3, 3}}, []int{1, 2, 2}, 3),
 	}
 	for _, c := range fcs {
 		if q := runFieldCase(r, "gate-filters", c, nil); q != nil {
